@@ -24,8 +24,8 @@ def main():
             continue
         meta = json.load(open(d + "meta.json"))
         det = meta.get("detected_by") or []
-        if not det or meta.get("obsolete"):
-            continue  # (obsolete: a later repair of the library made the seeded behaviour unreachable)
+        if not det or meta.get("obsolete") or meta.get("needs_rebase"):
+            continue  # (obsolete: a later repair of the library made the seeded behaviour unreachable; needs_rebase: the patch overlaps a later repair)
         pid = name.split("-")[0]
         check = pid if pid in det else det[0]
         rc, out = sh("git -C %s status --porcelain" % REPO)
